@@ -355,6 +355,9 @@ def replay(path):
     if not argv:
         log("replay file has no argv")
         return 2
+    if argv[0] == "c19":
+        # differential property: the comparison itself lives in the runner
+        return check("C19", rec.get("tier", "quick"), int(rec.get("seed", 1)))
     variant = rp.get("variant", "full")
     profile = rp.get("profile", "relcheck")
     binp = build(variant, profile)
